@@ -28,7 +28,7 @@ from ..tlc import MachineryError
 from . import c04
 
 PROP = "C14"
-WEIGHTS = {"sim": 2, "tc": 1, "proto": 4, "ptc": 8, "upd": 1, "ov": 2, "ss": 0, "clear": 1, "read": 0}
+WEIGHTS = {"sim": 2, "tc": 1, "proto": 4, "ptc": 8, "upd": 1, "ov": 2, "ss": 0, "clear": 1, "read": 3}
 
 
 def check_make_protocol(steps: list) -> dict | None:
@@ -58,7 +58,7 @@ def _replay(h):
             bad = check_make_protocol(s["op"]["steps"])
             if bad:
                 return {**bad, "step": j}, {}
-    return simkit.replay_history(h)
+    return simkit.replay_renderings(h)
 
 
 def proto_index(h: list) -> int:
@@ -75,14 +75,19 @@ def grid_classes(h: list) -> set:
         out.add(f"proto/n={op['n']}")
         return out
     pre = h[j - 1]["st"] if j > 0 else None
-    now = pre["now"]["o"] if pre else 0
-    offs = op["rpts"] if op["rel"] else [q["o"] - now for q in op["pts"]]
+    now = pre["now"] if pre else {"o": 0, "e": 0}
+    offs = [(v // 1000, v % 1000) for v in op["rpts"]] if op["rel"] else \
+        [(q["o"] - now["o"], q.get("e", 0) - now.get("e", 0)) for q in op["pts"]]
     cum, bounds = 0, []
     for s in op["steps"]:
         cum += s["d"]
         bounds.append(cum)
-    for o in offs:
-        if o < 0:
+    if j > 0 and h[j - 1]["op"]["k"] == "read":
+        out.add("views-read-before-protocol")
+    for o, e in offs:
+        if e:
+            out.add("just-after-start" if o == 0 else "just-after-boundary" if o in bounds else "just-after-other")
+        elif o < 0:
             out.add("before-start")
         elif o == 0:
             out.add("on-start")
@@ -161,7 +166,8 @@ def run(ctx: Ctx) -> int:
             classes[c] += 1
     need = ["before-start", "on-start", "on-boundary", "between", "beyond-end", "relative", "absolute", "refused",
             "accepted", "continued", "fresh", "steps=1", "steps=2", "steps=3", "repeated-values", "unequal-durations",
-            "after-override", "proto/n=1", "proto/n=2"]
+            "after-override", "proto/n=1", "proto/n=2", "just-after-start", "just-after-boundary",
+            "views-read-before-protocol"]
     missing = [c for c in need if classes[c] == 0]
     if missing:
         raise MachineryError(f"vacuity: the scenario family never has {missing}")
